@@ -42,7 +42,8 @@ def main():
         args = [a for a in args if a != str(j)]
     claimed = [c["property_id"] for c in json.load(open(f"{VERIF}/MANIFEST.json"))["checks"]]
     pids = args or claimed
-    jobs = [(p, x, p) for p in pids for x in "ab" if os.path.exists(f"{VERIF}/seeded/{p}/patch_{x}.diff")]
+    variants = os.environ.get("SEED_VARIANTS", "abc")
+    jobs = [(p, x, p) for p in pids for x in variants if os.path.exists(f"{VERIF}/seeded/{p}/patch_{x}.diff")]
     os.makedirs("/tmp/seedrun", exist_ok=True)
     with ThreadPoolExecutor(j) as ex:
         for res in ex.map(one, jobs):
